@@ -113,6 +113,14 @@ def workloads():
             # stored with a ttl in the setup are expired but still in the table when the workload starts
             out.append(W('cache:%s:%s' % (cname, vname), 'cache', setup, pre + [call] + post))
             out.append(W('cache:%s:%s:block' % (cname, vname), 'cache', setup, pre + in_block([call, {'op': 'incr', 'key': 'n'}]) + post))
+    # a block aborted by an exception (also one that is not an Exception: KeyboardInterrupt, SystemExit, ...) which the program catches,
+    # then more completed calls of the same client, then the kill: what completed after the abort must survive
+    for base in (False, True):
+        for kind_, wr, rd in (('cache', lambda k, v: {'op': 'set', 'key': k, 'value': v}, None),
+                              ('index', lambda k, v: {'op': 'setitem', 'key': k, 'value': v}, None)):
+            out.append(W('%s:aborted-block-then-work:%s' % (kind_, 'base' if base else 'exc'), kind_, [wr('k', 5)],
+                         in_block([wr('a', 6), {'op': 'raise_in_block', 'base': base}]) +
+                         [wr('b', 1), wr('c', BIG2)] + in_block([wr('d', 7), wr('e', 8)]) + [wr('post', SMALL)]))
     # nested block with several effects
     out.append(W('cache:block-nested:file', 'cache', [{'op': 'set', 'key': 'k', 'value': BIG}],
                  in_block([{'op': 'set', 'key': 'a', 'value': BIG2}] + in_block([{'op': 'incr', 'key': 'n'}, {'op': 'delete', 'key': 'k'}]) + [{'op': 'set', 'key': 'b', 'value': 2}])))
@@ -165,6 +173,8 @@ def units_of_program(program):
 
 
 def apply_unit(ref, program, unit):
+    if any(program[j]['op'] == 'raise_in_block' and not program[j].get('caught') for j in range(unit[0], unit[1] + 1)):
+        return                  # a block that raises is rolled back as a whole (inline values: exactly; file-backed: finding C06-F1)
     for j in range(unit[0], unit[1] + 1):
         if program[j]['op'] in concdrv.BLOCK_OPS:
             continue
@@ -414,6 +424,84 @@ def run_workload(ctx, res, stats, wl, points=None):
         if c05.enough(res, ID, EXPECTED_SIGS):
             break
     shutil.rmtree(tmpl, ignore_errors=True)
+
+
+def open_kills(ctx, res, stats, thorough):
+    """The kill lands inside the OPENING of a directory (Cache.__init__ creates tables, triggers and settings with many
+    statements): of a directory that does not exist yet, and of one that holds items.  Whatever the kill point, a later
+    process must be able to open the directory and use it: what it stores is counted (len == number of keys), the
+    counters agree with the rows and the files, check() is silent, and items that were there before are intact."""
+    from props import c06
+    clock = instr.Clock(c05.NOW)
+    for label, setup in (('fresh', []), ('populated', [{'op': 'set', 'key': 'old', 'value': BIG}, {'op': 'set', 'key': 'n', 'value': 1}])):
+        for kind, shards in (('cache', 1), ('fanout', 2)):
+            if kind == 'fanout' and not thorough and label == 'populated':
+                continue
+            tmpl = concdrv.scratch(ctx, 'c07o')
+            if setup:
+                k0 = concdrv.kill_child(tmpl, setup, kill_n=None, kind=kind, settings=SETTINGS, timeout=60, now=SETUP_NOW, shards=shards)
+                if k0['fatal'] or not k0['done']:
+                    raise RuntimeError('open_kills setup failed: %r' % k0['fatal'])
+            else:
+                shutil.rmtree(tmpl)
+            d0 = concdrv.scratch(ctx, 'c07o')
+            shutil.rmtree(d0)
+            if setup:
+                shutil.copytree(tmpl, d0)
+            prog = [{'op': 'set', 'key': 'first', 'value': 1}]
+            full = concdrv.kill_child(d0, prog, kill_n=None, kind=kind, settings=SETTINGS, shards=shards, trace_open=True)
+            shutil.rmtree(d0, ignore_errors=True)
+            if full['fatal'] or not full['done']:
+                res.violations.append(fw.Violation('workload_failed', 'opening a %s %s directory does not complete: %r' % (label, kind, full['fatal']),
+                                                   {'check': 'open_kill', 'kind': kind, 'label': label, 'kill_n': None}))
+                continue
+            n = full['nevents']
+            stats['kill_points']['open:%s:%s' % (label, kind)] = n
+            step = 1 if (thorough or n <= 120) else 2
+            for kn in range(0, n, step):
+                d = concdrv.scratch(ctx, 'c07o')
+                shutil.rmtree(d)
+                if setup:
+                    shutil.copytree(tmpl, d)
+                k = concdrv.kill_child(d, prog, kill_n=kn, kind=kind, settings=SETTINGS, shards=shards, trace_open=True)
+                case = {'check': 'open_kill', 'kind': kind, 'label': label, 'kill_n': kn, 'kill_event': k.get('kill_event'), 'events_before': k['events'][-6:]}
+                stats['kills'] += 1
+                res.count(['open-kill', label, kind, kn], nontrivial=True)
+                problems = []
+                try:
+                    with instr.Installed(clock):
+                        c = concdrv.make_object(kind, d, SETTINGS, timeout=1, shards=shards)
+                        try:
+                            before = sorted(c)
+                            for key, v in (('after1', 1), ('after2', BIG2), ('after3', 'x')):
+                                c.set(key, v, retry=True)
+                            keys = sorted(c)
+                            if len(c) != len(keys):
+                                problems.append(('open_kill:len_wrong', 'len() == %d but %d keys are stored (%r)' % (len(c), len(keys), keys)))
+                            for key, v in (('after1', 1), ('after2', BIG2), ('after3', 'x')):
+                                if c.get(key) != v:
+                                    problems.append(('open_kill:write_lost', 'item %r stored after the kill reads %r' % (key, c.get(key))))
+                            for call in setup:
+                                if c.get(call['key']) != call['value']:
+                                    problems.append(('open_kill:old_item_damaged', 'item %r stored before reads %r' % (call['key'], c.get(call['key']))))
+                            ws = [w for sh in concdrv.shards_of(c) for w in lib_check(sh)]
+                            bad = [w for w in ws if not issubclass(w.category, (diskcache.UnknownFileWarning, diskcache.EmptyDirWarning))]
+                            for w in bad[:1]:
+                                problems.append(('open_kill:check_reports', 'check() reports %r' % str(w.message).replace(d, '<dir>')))
+                        finally:
+                            concdrv.close_object(c)
+                    for sig, text in c06.consistency(d, kind, shards)[:2]:
+                        if sig != 'unknown_file':
+                            problems.append(('open_kill:' + sig, text))
+                except Exception as e:  # noqa
+                    problems.append(('open_kill:unusable', 'the directory cannot be opened and used after the kill: %r' % e))
+                for sig, text in problems[:2]:
+                    res.violations.append(fw.Violation(sig, '%s [opening a %s %s directory, killed before event %d/%d = %s]' % (text, label, kind, kn, n, k.get('kill_event')), case))
+                    stats['by_sig'][sig] = stats['by_sig'].get(sig, 0) + 1
+                shutil.rmtree(d, ignore_errors=True)
+                if c05.enough(res, ID, EXPECTED_SIGS):
+                    break
+            shutil.rmtree(tmpl, ignore_errors=True)
 
 
 class Counter(dict):
@@ -680,7 +768,8 @@ def run(ctx, big=False):
     if not thorough:
         rng = random.Random(ctx.seed * 7919 + 7)
         must = [w for w in wls if w['name'] in ('cache:set-replace:file', 'cache:pop:file', 'cache:set-replace:file:block', 'index:popitem-first:file',
-                                                'cache:delete:file', 'deque:popleft:file', 'cache:add-new:file')]
+                                                'cache:delete:file', 'deque:popleft:file', 'cache:add-new:file',
+                                                'cache:aborted-block-then-work:base', 'index:aborted-block-then-work:exc')]
         rest = [w for w in wls if w not in must and 'pages' not in w['name']]
         rng.shuffle(rest)
         sel = must + rest[:50]
@@ -695,6 +784,8 @@ def run(ctx, big=False):
         if _time.time() > deadline or c05.enough(res, ID, EXPECTED_SIGS):
             stats['stopped_early'] = True
             break
+    if not c05.enough(res, ID, EXPECTED_SIGS):
+        open_kills(ctx, res, stats, thorough)
     if not c05.enough(res, ID, EXPECTED_SIGS):
         concurrent_kills(ctx, res, stats, stride=3 if not thorough else 1)
     if not ctx.quick and not big and not c05.enough(res, ID, EXPECTED_SIGS):
